@@ -80,7 +80,10 @@ def closing(img: NDArray[np.bool_], scale: nm, radius: nm) -> NDArray[np.bool_]:
     if radius < 0:
         out = ndi.binary_opening(img, structure=structure, border_value=False)
     elif radius > 0:
-        out = ndi.binary_closing(img, structure=structure, border_value=False)
+        # NOTE: binary_closing uses the same border value for dilation and erosion, so a
+        # region whose dilation touches the image border would be eroded from outside.
+        dilated = ndi.binary_dilation(img, structure=structure, border_value=False)
+        out = ndi.binary_erosion(dilated, structure=structure, border_value=True)
     return out  # type: ignore
 
 
